@@ -63,9 +63,10 @@ static LargeInt ShiftOp(LargeInt Value, LargeInt Count, Boolean Left) {
         Count = (Count <= -LARGEBITS) ? LARGEBITS : -Count;
     }
     if (Count >= LARGEBITS) {
-        return (Left || (Value >= 0)) ? 0 : -1;
+        return 0;
     }
-    return Left ? (LargeInt)((LargeWord)Value << Count) : (Value >> Count);
+    /* both directions are logical shifts: */
+    return (LargeInt)(Left ? ((LargeWord)Value << Count) : ((LargeWord)Value >> Count));
 }
 
 static void ShLeftOp(TempResult* pErg, TempResult* pLVal, TempResult* pRVal) {
